@@ -5,6 +5,19 @@ props={json.loads(l)['id']:json.loads(l) for l in open('/verif/properties.jsonl'
 # id -> (technique, level text, level note, design ref)
 CLAIMED={
 
+ 'C17':("exhaustive enumeration of program layouts (fillers x fault x wrapper paths x delivery x route) with generator-known line numbers",
+        "8 faults x every wrapper path of length <=2 over 13 nesting constructs x 6 deliveries (direct, function defined earlier, closure; and through map/apply/swap!) x filler forms/comments/blank lines/multi-line raw strings before and after (430 k programs quick, 3 M thorough), read under a module name as one form and from a file through load-file; when the error carries a position it must name the module, lie within the rows of the top-level form textually containing the fault, and cover the fault's first row.",
+        "Errors without a position are not judged; columns are not judged; rows come from the generator's own bookkeeping.",
+        "DESIGN.md §4 C17"),
+ 'C18':("exhaustive enumeration of programs x all stepper command scripts up to length 3/4 (cyclic), differential against the stepper-free run, stepping flags observed through a test-only export",
+        "23 k (quick) / 128 k (thorough) programs from the C01, C03 and C12 grammars (extended with effects that read variables) are each run on the real EVAL without a stepper and under all 84 (quick) / 340 (thorough) command scripts over {noop,next,in,out}: result, error payload and effect trace must be identical, and every (t! sym) form handed to the callback must resolve, in the scope handed along, to the effect that follows. 2 M / 43 M stepped runs; the (flag state x command) pairs reached are listed in the evidence.",
+        "Output printed by 'next' is not an effect; recursion is bounded; flags are process-wide, so workers are single-threaded.",
+        "DESIGN.md §4 C18"),
+ 'C19':("exhaustive enumeration of programs x layouts x delivery routes, differential against the cursor-free AST",
+        "Every sequence of 2 (quick, 32 k) / 2-3 (thorough) top-level forms of weight <=2 is rendered in 8 layouts (single line, form per line, comments between all tokens, blank lines, CRLF, no final newline, trailing comment without newline, tabs + leading comment) and delivered through 6 routes (READ with module, READ with nil cursor, READ(PRINT(ast)), forms one by one through REPL, load-file from a file, all against the cursor-free AST built from Go); result, error payload, effect trace and final bindings must agree. 1.3 M evaluations quick.",
+        "load-file is compared on error/trace/bindings (it returns nil by design); REPL's printed result compared as text.",
+        "DESIGN.md §4 C19"),
+
  'C04':("exhaustive enumeration of malformed and well-formed ASTs (special forms x operand tuples, every bound symbol x argument tuples, one-level nestings) on the real EVAL under recover",
         "11 special-form heads x every operand tuple of length <=3 (quick, 372 k) / <=4 (thorough, 11.9 M) over 32 operand shapes, every one of ~150 symbols bound in the fully loaded environment x every argument tuple of length <=3 over 18 values of every kind (840 k), and 186 k one-level nestings are evaluated under recover; a panic crossing EVAL is a violation keyed by panic site, and every returned error must be catchable by try/catch. Panics need one specific malformed shape each; exhaustive short tuples meet all of them (8 sites found and fixed).",
         "Acyclic ASTs; recursion bounded by a poll-counting context; (panic nil) and run-fn-for excluded; worker stdin /dev/null.",
